@@ -31,6 +31,8 @@ def bump (cov : Map String Nat) (k : String) : Map String Nat :=
 structure RibSt where
   model : Rib := Rib.new ""
   diverged : Bool := false
+  /-- (client traces) the numbers of send and receive errors the client reported at the last observation -/
+  lastErrs : Nat × Nat := (0, 0)
   /-- every operation submitted so far, by id (latest wins) -/
   ops : Map Nat Op := []
   /-- the latest ADD / REPLACE submitted under each id (what a held id stands for: a DELETE is
